@@ -172,17 +172,43 @@ def _bv(elems):
     return bv_of_elems(elems)
 
 
+def _ed_funcs(c, cipher, klen, bs):
+    f = c.uf("E_%s_%d" % (cipher, klen), z3.BitVecSort(8 * klen), z3.BitVecSort(8 * bs), z3.BitVecSort(8 * bs))
+    g = c.uf("D_%s_%d" % (cipher, klen), z3.BitVecSort(8 * klen), z3.BitVecSort(8 * bs), z3.BitVecSort(8 * bs))
+    return f, g
+
+
+def _ed_state(c):
+    st = getattr(c, '_ed_state', None)
+    if st is None:
+        st = c._ed_state = dict(E=[], D=[], e_used=False, d_used=False)
+    return st
+
+
 def E(cipher, key, block):
-    """block cipher encryption of one block; key/block: element lists"""
+    """block cipher encryption of one block; key/block: element lists.
+    Bijectivity per key is instantiated lazily: D(k,E(k,x)) = x facts are only added once the path
+    applies D at all (and symmetrically), so encrypt-only modes carry no axioms."""
     c = ctx()
     bs = len(block)
-    f = c.uf("E_%s_%d" % (cipher, len(key)), z3.BitVecSort(8 * len(key)), z3.BitVecSort(8 * bs),
-             z3.BitVecSort(8 * bs))
-    g = c.uf("D_%s_%d" % (cipher, len(key)), z3.BitVecSort(8 * len(key)), z3.BitVecSort(8 * bs),
-             z3.BitVecSort(8 * bs))
+    f, g = _ed_funcs(c, cipher, len(key), bs)
     k, x = _bv(key), _bv(block)
+    x = z3.simplify(x)
+    # E(k, D(k, y)) rewrites to y
+    if z3.is_app(x) and x.decl().eq(g) and x.arg(0).eq(z3.simplify(k)):
+        stub_uses.add("E_%s" % cipher)
+        return elems_of_bv(x.arg(1), bs)
     y = f(k, x)
-    c.axiom(('ED', y.get_id()), g(k, y) == x)
+    st = _ed_state(c)
+    st['e_used'] = True
+    if st['d_used']:
+        c.axiom(('ED', y.get_id()), g(k, y) == x)
+    else:
+        st['E'].append((g, k, x, y))
+    if not getattr(st, 'flushedD', False) and st['D']:
+        for ff, kk, yy, xx in st['D']:
+            c.axiom(('DE', xx.get_id()), ff(kk, xx) == yy)
+        st['D'] = []
     stub_uses.add("E_%s" % cipher)
     return elems_of_bv(y, bs)
 
@@ -190,13 +216,24 @@ def E(cipher, key, block):
 def D(cipher, key, block):
     c = ctx()
     bs = len(block)
-    f = c.uf("E_%s_%d" % (cipher, len(key)), z3.BitVecSort(8 * len(key)), z3.BitVecSort(8 * bs),
-             z3.BitVecSort(8 * bs))
-    g = c.uf("D_%s_%d" % (cipher, len(key)), z3.BitVecSort(8 * len(key)), z3.BitVecSort(8 * bs),
-             z3.BitVecSort(8 * bs))
+    f, g = _ed_funcs(c, cipher, len(key), bs)
     k, y = _bv(key), _bv(block)
+    y = z3.simplify(y)
+    # D(k, E(k, x)) rewrites to x
+    if z3.is_app(y) and y.decl().eq(f) and y.arg(0).eq(z3.simplify(k)):
+        stub_uses.add("D_%s" % cipher)
+        return elems_of_bv(y.arg(1), bs)
     x = g(k, y)
-    c.axiom(('DE', x.get_id()), f(k, x) == y)
+    st = _ed_state(c)
+    st['d_used'] = True
+    if st['e_used']:
+        c.axiom(('DE', x.get_id()), f(k, x) == y)
+    else:
+        st['D'].append((f, k, y, x))
+    if st['E']:
+        for gg, kk, xx, yy in st['E']:
+            c.axiom(('ED', yy.get_id()), gg(kk, yy) == xx)
+        st['E'] = []
     stub_uses.add("D_%s" % cipher)
     return elems_of_bv(x, bs)
 
